@@ -2,6 +2,7 @@ package checks
 
 import (
 	"bytes"
+	"context"
 	"fmt"
 	"math/rand"
 	"time"
@@ -394,6 +395,15 @@ func c01One(run *ev.Run, p c01P) {
 	}
 	for i := 0; i < p.Cmds; i++ {
 		cmd := &RawCmd{Op: ipmi.Operation{Function: ipmi.NetworkFunctionAppReq, Command: ipmi.CommandNumber(0x40 + i%16)}, Req: rbytes(r, r.Intn(30))}
+		switch r.Intn(5) {
+		case 0:
+			// a request far larger than anything the connection has carried so far (sizes jump,
+			// they do not creep up)
+			cmd.Req = rbytes(r, 40+r.Intn(180))
+		case 1:
+			// a sensor or device behind another logical unit of the BMC
+			cmd.LUN = ipmi.LUN(1 + r.Intn(3))
+		}
 		damaged := 0
 		if env != nil && i%3 == 2 {
 			busyOnce = true
@@ -422,7 +432,13 @@ func c01One(run *ev.Run, p c01P) {
 			}
 		}
 		var code ipmi.CompletionCode
-		pv, stack := safe(func() { code, err = sess.SendCommand(ctx, cmd) })
+		cctx, ccancel := ctx, context.CancelFunc(func() {})
+		if env != nil {
+			// a logical bound: no command of this history needs more than three transmissions
+			cctx, ccancel = env.LimitCtx(8)
+		}
+		pv, stack := safe(func() { code, err = sess.SendCommand(cctx, cmd) })
+		ccancel()
 		if pv != nil {
 			run.Violation("C01:panic-in-command:"+panicSite(stack), fmt.Sprintf("SendCommand panicked on suite %v: %v\n%s", p.Suite, pv, trimStack(stack)), cs, nil)
 			return
